@@ -272,12 +272,26 @@ func addConflict(out *[]Conflict, seen map[string]bool, a RouteEntry, b RouteEnt
 		aPath, bPath = bPath, aPath
 		a, b = b, a
 	}
-	key := aPath + "||" + bPath + "||" + reason
+	// Textually identical routes may belong to different receivers; key on the entries' identity as well,
+	// otherwise a third identical route is swallowed as a repeat of the second one's conflict
+	key := aPath + "||" + bPath + "||" + reason + "||" + entryIdentity(a) + "||" + entryIdentity(b)
 	if seen[key] {
 		return
 	}
 	seen[key] = true
 	*out = append(*out, Conflict{A: a, B: b, Reason: reason})
+}
+
+// entryIdentity names the receiver (and its controller) an entry was discovered on.
+// Entries without metadata share the empty identity and are de-duplicated by text alone.
+func entryIdentity(entry RouteEntry) string {
+	if entry.Meta.Receiver == nil {
+		return ""
+	}
+	if entry.Meta.Controller == nil {
+		return entry.Meta.Receiver.Name
+	}
+	return entry.Meta.Controller.Struct.Name + "." + entry.Meta.Receiver.Name
 }
 
 func inPlaceSortConflicts(conflicts []Conflict) []Conflict {
